@@ -112,7 +112,7 @@ contract(FU + '.generate_bytes', props=['C02', 'C11'],
                   'forall(lambda j: implies(0 <= j and j < len(self._bytes), elems(self._bytes)[j] == '
                   'old(ite(self._fill_value is not None, value_of(self._fill_value), '
                   'xval(self._fill_value_expr, self._label_scope))) % 256))'],
-         modifies=['self._fill_until_addr', 'self._fill_value', 'self._bytes[*]'], allocates=True)
+         modifies=['self._fill_until_addr', 'self._fill_value', 'self._bytes[*]', 'self._count'], allocates=True)
 
 # ---- predefined data blocks -------------------------------------------------------------------------
 PD = LO + '.predefined_data:PredefinedDataLine'
